@@ -74,6 +74,14 @@ def _interp(expr, s, i, v, reads):
         val = v[expr[1]]
         reads.append(('v', expr[1], val))
         return val
+    if op == 'inget':
+        val = i.get(expr[1], expr[2])          # Mapping protocol on the inputs accessor
+        reads.append(('i', expr[1], val))
+        return val
+    if op == 'inhas':
+        val = expr[1] in i
+        reads.append(('i', expr[1], val))
+        return 1 if val else 0
     if op == 'get':
         val = v.get(expr[1], expr[2])          # Mapping protocol on the values accessor
         reads.append(('v', expr[1], val))
@@ -286,6 +294,11 @@ def model(program):
             return read_input(owner, expr[1])
         if op == 'val':
             return read_line(owner, expr[1])
+        if op == 'inget':
+            return read_input(owner, expr[1])
+        if op == 'inhas':
+            read_input(owner, expr[1])
+            return 1
         if op == 'get':
             # a line read through .get() is a read like any other: an unknown line is demanded, never defaulted
             return read_line(owner, expr[1])
@@ -431,6 +444,10 @@ def programs(draw, bad_refs=False, max_forms=4, prompt_modes=('none', 'total', '
             leaves.append(st.builds(lambda n_: ['in', n_], st.sampled_from(all_input_refs)))
         leaves.append(st.just(['none']))
         leaves.append(st.just(['ni']))
+        if local_inputs or all_input_refs:
+            pool_ = sorted(set(local_inputs) | set(all_input_refs))
+            leaves.append(st.builds(lambda n_, d_: ['inget', n_, d_], st.sampled_from(pool_), st.sampled_from([0, 7])))
+            leaves.append(st.builds(lambda n_: ['inhas', n_], st.sampled_from(pool_)))
         if all_line_refs:
             leaves.append(st.builds(lambda n_, d_: ['get', n_, d_], st.sampled_from(all_line_refs), st.sampled_from([0, 7])))
             leaves.append(st.builds(lambda n_: ['has', n_], st.sampled_from(all_line_refs)))
